@@ -381,6 +381,14 @@ func zzShape(n int) (*zzGraph, []string, bool) {
 			{Name: "X", Cmds: []zzCmd{probe}},
 			{Name: "S", Run: "once", Cmds: []zzCmd{probe}},
 		}}, []string{"R"}, false
+	case 6: // the first caller's failure is swallowed; a later, sequential dependent of the shared task
+		return &zzGraph{Tasks: []zzTask{
+			{Name: "R", IgnoreError: true, Cmds: []zzCmd{{Call: "P"}, {Call: "Q"}}},
+			{Name: "P", Deps: []string{"S", "F"}},
+			{Name: "Q", Deps: []string{"S"}, Cmds: []zzCmd{probe}},
+			{Name: "F", Cmds: []zzCmd{probe}},
+			{Name: "S", Run: "once", Cmds: []zzCmd{probe}},
+		}}, []string{"R"}, false
 	case 5: // dependency + nested call of the same shared task
 		return &zzGraph{Tasks: []zzTask{
 			{Name: "R", Deps: []string{"A", "B"}},
